@@ -58,7 +58,7 @@ After(ev) ==
                                 ELSE IF ev.name_after # m2.name THEN <<"metric_name", ev.name_after, m2.name>>
                                 ELSE <<>>]
     [] ev.op = "NewChannel" ->
-         [same EXCEPT !.chan = [N |-> ev.N, rE |-> ev.rE, sc |-> ev.sc, intact |-> TRUE], !.last = [last EXCEPT !.onCur = FALSE],
+         [same EXCEPT !.chan = [N |-> ev.N, rE |-> ev.rE, src |-> ev.src, sc |-> ev.sc, intact |-> TRUE], !.last = [last EXCEPT !.onCur = FALSE],
                       !.mm = IF obj = NoObj \/ ((ev.rE = 0) # (obj.cls = "BD")) THEN <<"not enabled">> ELSE <<>>]
     [] ev.op = "SolveBD" ->
          LET l2 == BDResult(ev.which, chan)
